@@ -1,20 +1,26 @@
 import LunaVerif.Core.Proto
 import LunaVerif.Model.Usb3.PacketTx
+import LunaVerif.Props.C39Retry
 open LunaVerif LunaVerif.Proto LunaVerif.PacketTx
 
 /-- config line: `# credit_timeout_cycles 2^timer_width`;
 input: `sink_valid sink_data sink_ctrl source_ready enable queue_valid q_dw0 q_dw1 q_dw2 q_dw3 lrty_pending`;
 output: `source_valid source_data source_ctrl queue_ready bringup_complete link_command_received
-retry_received retry_required recovery_required lgo_received lgo_target credits_available packets_to_send`. -/
+retry_received retry_required recovery_required lgo_received lgo_target credits_available packets_to_send env_r`;
+`env_r` is not a port of the gateware: it is whether the environment hypothesis `EnvStepR` of the retransmission
+theorem (`Props/C39Retry`) holds in this cycle, with the observer's ghost record restarted whenever the link is
+down — the harness expects 1 as long as its monitor considers the partner to be within the environment. -/
 def main : IO Unit :=
-  runDriver (σ := Config × State)
-    (fun cfg => ({ timeout := fld cfg 0, timerMod := fld cfg 1 }, init))
-    (fun (c, s) i =>
+  runDriver (σ := Config × State × Ghost)
+    (fun cfg => ({ timeout := fld cfg 0, timerMod := fld cfg 1 }, init, Ghost.init))
+    (fun (c, s, g) i =>
       let inp : In :=
         { sinkValid := n2b (fld i 0), sinkData := fld i 1, sinkCtrl := fld i 2, srcReady := n2b (fld i 3),
           enable := n2b (fld i 4), qValid := n2b (fld i 5), qHdr := ⟨fld i 6, fld i 7, fld i 8, fld i 9⟩,
           lrtyPending := n2b (fld i 10) }
       let (s', o) := step c s inp
-      ((c, s'), [b2n o.srcValid, o.srcData, o.srcCtrl, b2n o.qReady, b2n o.bringup, b2n o.linkCommandReceived,
+      let envR : Bool := decide (EnvStepR s g inp)
+      let g' := if inp.enable then ghostStep s inp g else Ghost.init
+      ((c, s', g'), [b2n o.srcValid, o.srcData, o.srcCtrl, b2n o.qReady, b2n o.bringup, b2n o.linkCommandReceived,
                  b2n o.retryReceived, b2n o.retryRequired, b2n o.recoveryRequired, b2n o.lgoReceived, o.lgoTarget,
-                 o.credits, o.pts]))
+                 o.credits, o.pts, b2n envR]))
